@@ -39,7 +39,7 @@ def check(run, args):
     run.distinct += st["stats"].get("placements_x_trees", 0)
     run.rule += ("every fault placement of JenOutput (entry point x valid/invalid x NoFormat x writer failing at call 1/2 x Save target kind), "
                  "exported by TLC, each executed with 4 trees; distinct_nontrivial = distinct (placement, tree) pairs")
-    run.samples += st.get("samples", [])
+    run.samples += (st.get("samples") or [])
     run.exhaustive = True
     run.cov.setdefault("harness_stats", []).append(st["stats"])
     run.assumptions += ["writer double records every Write call; formattability of the raw rendering is decided by go/format on a NoFormat twin",
